@@ -538,6 +538,16 @@ func run(s Script, v *vt.V) {
 					v.Failf("wrong-range-header", "%s: Range %q but the session holds %d bytes (want %q)", desc, hdr.Get("Range"), size, want)
 					return
 				}
+				// an accepted chunk is in the session: each of the backend's three repositories started with "hello"
+				// under the one known id, any other id starts a session of its own
+				held := int64(0)
+				if baseID(lc.ID) == uploadID && (lc.Repo == "foo" || lc.Repo == "a/blobs/uploads" || lc.Repo == "foo/bar") {
+					held = 5
+				}
+				if s.Method == "PATCH" && status == 202 && s.BackendMode == "" && s.ContentLength < 0 && size != held+int64(len(body)) {
+					v.Failf("accepted-chunk-not-stored", "%s: the session held %d bytes, the request carried %d and was answered 202; the session now holds %d", desc, held, len(body), size)
+					return
+				}
 			}
 		default:
 			v.Failf("status", "%s: upload request answered %d", desc, status)
@@ -757,7 +767,7 @@ func rawBytes(s string) string {
 var prop = &vt.Prop[Script]{
 	ID:   "C06",
 	Name: "ServeAnyRequest",
-	Rule: "requests built by hand (so that unparseable paths are reachable) and served in-process by ociserver over a recording, close-tracking wrapper of a pre-populated ocimem (3 repositories incl. a/blobs/uploads, blobs, image + index manifests with subject, tags - one naming a manifest of zero bytes, one left dangling by the deletion of its manifest -, an upload in progress; an eighth of the backends hand out readers that fail after 0-19 bytes: the response is then an error document or exactly the bytes delivered, never content with something appended; an eighth of the backends are read-only or fail every call with a fixed OCI error, handing back nil readers and writers) under every Options combination, a quarter of the time with a backend that rotates upload ids: method in {GET,HEAD,PUT,POST,PATCH,DELETE,OPTIONS,'',lower case,garbage}; path = one of 8 endpoint templates with slots from known / valid (routing words, 255-1000 byte names) / hostile names, digests, tags and upload ids (incl. ids whose base64 form needs the URL-safe alphabet), then mutated (segment dropped / duplicated / emptied, trailing slash, double slash, other prefix); query n,last,digest,mount,from each absent / empty / valid / malformed / repeated, raw malformed queries; Range, Content-Range, Content-Type headers from valid and boundary values (0-0, 5-4, 1-0, MaxInt64, negative, non-numeric, lone '-' and ',' forms, generated strings over the range alphabet, values with bytes above 0x7f); bodies (empty, 1 byte, blob, valid image / index manifests, truncated JSON) with matching, unknown (-1) and mismatching Content-Length; oracle = no panic; status >= 400 => OCI JSON error document whose status equals the specification's for its code; 2xx => the endpoint's mandated headers (Location - for uploads naming the id the backend's writer reports now -, Docker-Content-Digest, Range, Content-Range consistent with the body, Content-Length == body); no backend call with a repository, tag or digest that an independent reference reading of the grammars rejects; every reader and writer obtained from the backend closed; non-trivial = the request reached a handler or was rejected for a reason other than a foreign path; distinct = (method, template, mutation, status, header set, query)",
+	Rule: "requests built by hand (so that unparseable paths are reachable) and served in-process by ociserver over a recording, close-tracking wrapper of a pre-populated ocimem (3 repositories incl. a/blobs/uploads, blobs, image + index manifests with subject, tags - one naming a manifest of zero bytes, one left dangling by the deletion of its manifest -, an upload in progress; an eighth of the backends hand out readers that fail after 0-19 bytes: the response is then an error document or exactly the bytes delivered, never content with something appended; an eighth of the backends are read-only or fail every call with a fixed OCI error, handing back nil readers and writers) under every Options combination, a quarter of the time with a backend that rotates upload ids: method in {GET,HEAD,PUT,POST,PATCH,DELETE,OPTIONS,'',lower case,garbage}; path = one of 8 endpoint templates with slots from known / valid (routing words, 255-1000 byte names) / hostile names, digests, tags and upload ids (incl. ids whose base64 form needs the URL-safe alphabet), then mutated (segment dropped / duplicated / emptied, trailing slash, double slash, other prefix); query n,last,digest,mount,from each absent / empty / valid / malformed / repeated, raw malformed queries; Range, Content-Range, Content-Type headers from valid and boundary values (0-0, 5-4, 1-0, MaxInt64, negative, non-numeric, lone '-' and ',' forms, generated strings over the range alphabet, values with bytes above 0x7f); bodies (empty, 1 byte, blob, valid image / index manifests, truncated JSON) with matching, unknown (-1) and mismatching Content-Length; oracle = no panic; status >= 400 => OCI JSON error document whose status equals the specification's for its code; 2xx => the endpoint's mandated headers (Location - for uploads naming the id the backend's writer reports now -, Docker-Content-Digest, Range, Content-Range consistent with the body, Content-Length == body); after a 202 to a PATCH the session holds what it held plus the request's body; no backend call with a repository, tag or digest that an independent reference reading of the grammars rejects; every reader and writer obtained from the backend closed; non-trivial = the request reached a handler or was rejected for a reason other than a foreign path; distinct = (method, template, mutation, status, header set, query)",
 	Gen:  genScript,
 	Run:  run,
 }
